@@ -172,3 +172,8 @@ package ja4
 //@   ensures [C02:ja4b-ciphers] err == nil ==> sorted16(j.CipherSuites) && len(j.CipherSuites) == len(filterNG(chs.CipherSuites, len(chs.CipherSuites))) && (forall v uint16 :: cnt16(j.CipherSuites, v, len(j.CipherSuites)) == cnt16(filterNG(chs.CipherSuites, len(chs.CipherSuites)), v, len(j.CipherSuites)))
 //@   ensures [C02:ja4c-extensions] err == nil ==> sorted16(j.Extensions) && len(j.Extensions) == len(extIDs(chs.Extensions, false, len(chs.Extensions))) && (forall v uint16 :: cnt16(j.Extensions, v, len(j.Extensions)) == cnt16(extIDs(chs.Extensions, false, len(chs.Extensions)), v, len(j.Extensions)))
 //@   ensures [C02:ja4c-sigalgs] err == nil ==> j.SignatureAlgorithms == sigAlgs(chs.Extensions, len(chs.Extensions))
+
+//@ -- Order invariance: two sorted lists with the same multiplicities are the same list. With the multiset
+//@ -- postconditions above this is what makes JA4_b / JA4_c independent of the wire order of ciphers/extensions.
+//@ lemma [C02:count-positive-has-index] cntPos(xs seq[uint16], v int, n int) induction n from 0 = cnt16(xs, v, n) > 0 ==> (exists i int :: 0 <= i && i < n && xs[i] == v)
+//@ lemma [C02:sorted-same-counts-equal] sortedEq(a seq[uint16], b seq[uint16], n int) induction n from 0 using cntPos = n <= len(a) && n <= len(b) && sorted16(a) && sorted16(b) && (forall v uint16 :: cnt16(a, v, n) == cnt16(b, v, n)) ==> a[:n] == b[:n]
